@@ -20,6 +20,7 @@ Require Import Blots.Num Blots.gen.Builtins Blots.Ast Blots.Value Blots.Outcome 
                Blots.Env Blots.Eval Blots.BuiltinsHof Blots.Program Blots.EvalInst Blots.EvalFull
                Blots.proofs.ValueInd Blots.proofs.EmitHO.
 Require Import Blots.Access Blots.BuiltinsList Blots.BuiltinsText.
+Require Export Blots.RelTable.
 Require Blots.BuiltinsAgg.
 Import ListNotations.
 Open Scope list_scope.
@@ -63,28 +64,6 @@ Proof. induction 1; cbn; congruence. Qed.
 Lemma Forall2_map_same {A B} (Q : B -> B -> Prop) (f : A -> B) l : (forall a, Q (f a) (f a)) -> Forall2 Q (map f l) (map f l).
 Proof. intros H. induction l; cbn; constructor; auto. Qed.
 
-(* ---- the pure arms that EvalFull.builtin_full adds to EvalInst.builtin_impl, as a table ---- *)
-Definition pure_arm_of (b : builtin) : option (list value -> outcome value) :=
-  match b with
-  | B_min => Some BuiltinsAgg.bi_min | B_max => Some BuiltinsAgg.bi_max | B_avg => Some BuiltinsAgg.bi_avg
-  | B_sum => Some BuiltinsAgg.bi_sum | B_prod => Some BuiltinsAgg.bi_prod
-  | B_median => Some BuiltinsAgg.bi_median | B_percentile => Some BuiltinsAgg.bi_percentile
-  | B_dot => Some BuiltinsAgg.bi_dot
-  | B_range => Some bi_range | B_len => Some bi_len | B_head => Some bi_head | B_tail => Some bi_tail
-  | B_slice => Some bi_slice | B_concat => Some bi_concat | B_unique => Some bi_unique
-  | B_sort => Some bi_sort | B_reverse => Some bi_reverse | B_split => Some bi_split
-  | B_replace => Some bi_replace | B_includes => Some bi_includes | B_keys => Some bi_keys
-  | B_values => Some bi_values | B_entries => Some bi_entries | B_flatten => Some bi_flatten
-  | B_zip => Some bi_zip | B_chunk => Some bi_chunk
-  | B_convert => Some bi_convert | B_round => Some bi_round | B_random => Some bi_random
-  | B_to_number => Some bi_to_number | B_to_string => Some bi_to_string | B_join => Some bi_join_full
-  | _ => None
-  end.
-(* the arms that apply Value::equals to argument elements *)
-Definition equals_based (b : builtin) : bool :=
-  match b with B_unique | B_includes => true | _ => false end.
-Definition callback_arm (b : builtin) : bool :=
-  match b with B_sort_by | B_group_by | B_count_by => true | _ => false end.
 Lemma builtin_full_pure : forall cb b f, pure_arm_of b = Some f -> builtin_full cb b = pure_bi f.
 Proof. intros cb b f E. destruct b; cbn in E; try discriminate E; inversion E; reflexivity. Qed.
 Lemma builtin_full_other : forall cb b, pure_arm_of b = None -> callback_arm b = false ->
